@@ -193,7 +193,24 @@ def lattice_unit(u) -> Stats:
     return st
 
 
+def interleaved_unit(u) -> Stats:
+    """One process, player counts interleaved (ascending, descending, alternating, repeated): the value of a game must not depend on
+    which player counts were used before (memoised coefficients / id arrays keyed too coarsely would show here)."""
+    _, order = u
+    st = Stats()
+    for rnd, n in enumerate(order):
+        for k in range(3):
+            v = [0] + [((s * (k + 2) + rnd) % 5) - 1 for s in range(1, 1 << n)]
+            check_game(st, n, v, f"interleaved order={list(order)} position={rnd}")
+            st.states += 1
+            if st.nviol >= 3:
+                return st
+    return st
+
+
 def dispatch(u) -> Stats:
+    if u[0] == "inter":
+        return interleaved_unit(u)
     if u[0] == "guard":
         return guard_unit(u[1])
     if u[0] == "basis":
@@ -237,15 +254,19 @@ def run(run: Run) -> None:
     us += [("a4bin", i, min(i + 256, 2048), seed) for i in range(0, 2048, 256)]
     us += [("a4ter", i, min(i + 243, 3 ** 6), seed) for i in range(0, 3 ** 6, 243)]
     us += [("scaled", i, i + 23, seed) for i in range(0, 69, 23)]
+    inter = [("inter", o) for o in ((2, 3, 4, 5, 6, 7), (7, 6, 5, 4, 3, 2), (3, 6, 3, 5, 3, 4, 3), (5, 5, 2, 5, 7, 2, 5), (4, 3, 4, 3, 6, 4))]
     run.rule = ("(i) the real Shapley code executed on indeterminates for each n: exact coefficient of every v(S) for every player compared with the "
                 "count over all n! orderings; (ii) every unit game e_S (a basis of the game space) through the real float path, both entry points; "
                 "(iii) all 2187 three-player games over {-1,0,1}, all 2048 four-player games over {0,1} on coalitions of size >= 2, 729 mixed games with "
                 "non-zero singletons, 138 large-magnitude games M*u + small perturbation (M = 1e6, 1e9); (iv) efficiency, null players, relabellings, additivity on all pairs of basis games (n<=5). "
+                "(v) call histories: interleaved player counts within one freshly forked process. "
                 "non-trivial = games with a non-zero Shapley vector / coefficient rows verified")
     run.bounds = {"guard_n": [2, 7 if quick else 9], "basis_n": [2, 7 if quick else 9], "efficiency_only_n": [9] if quick else [9, 10]}
     run.assumptions = ["basis x orderings decides the identity for every real game at each enumerated n only together with the linearity guard (E5); "
                        "float rounding is bounded by 1e-12*scale, not enumerated"]
     run.add(fanout(dispatch, sorted(us, key=lambda u: -(u[1] if u[0] in ("guard", "basis", "eff") else 5))))
+    from ..core import fresh_forks
+    run.add(fresh_forks(dispatch, inter, procs=5))
 
 
 def replay(doc: dict):
